@@ -68,10 +68,13 @@ for kind, (nm, props, fns) in enumerate(ITER_KINDS):
         h("whole_%s_n%d" % (nm, n), n + 3, "iters::whole::<_, %d, %d>" % (kind, n), props + ["C20"], tier,
           "any WF arena of N=%d slots; full traversal through the real constructor (stack re-homed into reserved capacity), probe prefix; %s; unwind %d" % (n, P8, n + 3), fns, cost=cost,
           stub="growmodel" if kind == 3 else "nogrow")
-h("proj_n2", 5, "iters::proj::<_, 2>", ["C03", "C13", "C20"], "quick",
-  "any WF arena of N=2 slots (root with at most one child: the real `vec![0]` stacks never grow); keys / values / (&map).into_iter / values_mut / into_keys / into_values / Keys::clone (taken after the first item) / set iter / (&set).into_iter / set.into_iter through the real constructors, item by item against iter(), which is checked against the entry oracle; %s; unwind 5" % P8,
-  ["PrefixMap::{iter,keys,values,values_mut,into_keys,into_values}", "<&PrefixMap>::into_iter", "Keys::next", "Values::next", "ValuesMut::next", "IntoKeys::next", "IntoValues::next", "Keys::clone", "Iter::clone",
-   "PrefixSet::iter", "<&PrefixSet>::into_iter", "<PrefixSet>::into_iter", "set::Iter::next", "set::IntoIter::next"], cost=60)
+PROJ = [("keys / values / (&map).into_iter / Keys::clone (taken after the first item)", ["PrefixMap::{iter,keys,values}", "<&PrefixMap>::into_iter", "Keys::next", "Values::next", "Keys::clone", "Iter::clone"]),
+        ("values_mut / into_keys / into_values (owned ones on maps with an arbitrary entry counter)", ["PrefixMap::{iter,values_mut,into_keys,into_values}", "ValuesMut::next", "IntoKeys::next", "IntoValues::next", "IntoIter::next"]),
+        ("set iter / (&set).into_iter / set.into_iter", ["PrefixSet::iter", "<&PrefixSet>::into_iter", "<PrefixSet>::into_iter", "set::Iter::next", "set::IntoIter::next"])]
+for kind, (what, fns) in enumerate(PROJ):
+    h("proj%d_n2" % kind, 5, "iters::proj::<_, %d, 2>" % kind, ["C03", "C20"] + (["C13"] if kind == 1 else []), "quick",
+      "any WF arena of N=2 slots (root with at most one child: the real `vec![0]` stacks never grow); %s through the real constructors, item by item against iter() (itself decided against the entry oracle by whole_iter_n3, whose arenas include these shapes); %s; unwind 5" % (what, P8),
+      fns, cost=100)
 CH_KINDS = [("children", ["C10", "C18"], ["PrefixMap::children", "lpm_children_iter_start", "Iter::next"]),
             ("children_mut", ["C10", "C13"], ["PrefixMap::children_mut", "lpm_children_iter_start", "IterMut::next"]),
             ("into_children", ["C10"], ["PrefixMap::into_children", "lpm_children_iter_start", "IntoIter::next"])]
@@ -108,6 +111,9 @@ h("eq_set_n2", 6, "misc::eq_set::<_, 2>", ["C19", "C20"], "quick",
 h("clone_n3", 5, "misc::clone_indep::<_, 3>", ["C19", "C04", "C20"], "quick",
   "any WF arena of N=3 slots; clone(), then writes/removals on either side; read-back of both arenas; unwind 5",
   ["<PrefixMap as Clone>::clone", "<Table as Clone>::clone", "PrefixMap::get_mut", "PrefixMap::remove_keep_tree"], cost=100)
+h("clone_from_n2", 4, "misc::clone_from::<_, 2>", ["C19", "C04", "C20"], "quick",
+  "two WF arenas of N=2 slots each (source and a destination that already holds entries); dst.clone_from(&src) (also the body of ToOwned::clone_into); read-back of the destination arena, len(), probe lookup, source unchanged; unwind 4",
+  ["<PrefixMap as Clone>::clone_from", "<Table as Clone>::clone", "Vec::<Node>::clone", "drop of the previous destination arena"], cost=60)
 h("collect2", 8, "misc::collect2", ["C01", "C04", "C18", "C19", "C20"], "quick",
   "bounded history from new(): FromIterator over two symbolic (prefix, value) pairs in both orders, lookups, `==`; real Vec growth through the allocator model; %s; unwind 8" % P8,
   ["<PrefixMap as FromIterator>::from_iter", "PrefixMap::new", "PrefixMap::insert", "<PrefixMap as PartialEq>::eq"], cost=400, stub="growmodel")
@@ -325,7 +331,7 @@ H[:] = [x for x in H if not (x["name"].startswith("union_step_") and True)]
 QUICK = {
     "C01": ["obs_get_n4", "entry_obs_n3", "insert_ret_n2", "remove_ret_n3", "remove_ret_n4", "rkt_ret_n3", "rmchildren_ret_n3", "clear_n3", "hist2_1", "obs_get_mut_n4"],
     "C02": ["obs_lpm_n3", "obs_lpm_n4", "obs_lpm_mut_n4", "obs_cover_n3", "cover_chain_n4"],
-    "C03": ["whole_iter_n3", "whole_iter_mut_n3", "whole_into_iter_n3", "step_iter_n4", "step_iter_mut_n4"],
+    "C03": ["whole_iter_n3", "whole_iter_mut_n3", "whole_into_iter_n3", "step_iter_n4", "step_iter_mut_n4", "proj1_n2"],
     "C04": ["insert_len_n2", "remove_len_n3", "rkt_len_n3", "clear_n3", "entry_top0_len_n2", "entry_handle1_len_n2", "clone_n3",
             "view_access[23]_n3", "occ_seq_plain_n2"],
     "C05": ["union_init_ro_n2", "union_init_(ro|mut)_n3", "union_helper0_n[34]", "union_whole_n1"],
@@ -342,7 +348,7 @@ QUICK = {
     "C16": ["insert_slots_n2", "remove_slots_n[34]", "rkt_slots_n3", "rmchildren_slots_n3", "clear_n3", "entry_handle1_slots_n2"],
     "C17": ["alg_.*"],
     "C18": ["obs_get_n4", "obs_lpm_n3", "entry_obs_n3", "insert_ret_n2", "view_at_ro_n4", "union_whole_n1", "inter_helper0_n4"],
-    "C19": ["eq_map_n1", "eq_set_n1", "clone_n3"],
+    "C19": ["eq_map_n1", "eq_set_n1", "clone_n3", "clone_from_n2"],
     "C20": ["retain_obs_n2", "alg_u8", "obs_get_n3", "entry_obs_n3", "remove_ret_n3", "occ_seq_plain_n2", "occ_seq_after_remove_.*_n2", "view_set_then_remove_n2", "entry_callback0_n2"],
     "SELFTEST": ["selftest_fail"],
 }
@@ -365,7 +371,7 @@ THOROUGH_EXTRA = {
             "obs_get_n4", "obs_get_mut_n4", "insert_ret_n3", "remove_ret_n4", "entry_top[2-5]_ret_n2", "entry_handle2_ret_n2", "hist2_[23]",
             "collect2", "retain_n2", "retain_lite_n3", "retain_n3"],
     "C02": ["obs_set_n3", "obs_lpm_mut_n3", "obs_cover_n4", "cover_chain_n4", "remove_shape_n3"],
-    "C03": ["remove_shape_n3", "whole_.*_n4", "step_iter.*_n3", "whole_keys_values_clone_n2"],
+    "C03": ["remove_shape_n3", "whole_.*_n4", "step_iter.*_n3", "whole_keys_values_clone_n2", "proj[02]_n2"],
     "C04": ["rmchildren_len_n3", "entry_top1_len_n2", "entry_handle0_len_n2", "retain_lite_n2", "hist2_1", "obs_set_n3", "remove_shape_n3", "insert_len_n3", "remove_len_n4", "entry_top[2-5]_len_n2", "entry_handle2_len_n2", "view_access[01]_n3", "hist2_[023]", "rebuild2",
             "retain_n2", "collect2", "obs_get_mut_n4", "whole_iter_n3"],
     "C05": ["union_init_mut_n2", "union_helper0_n2", "union_helper[12]_n[234]", "union_step[0-4]_(ro|mut)_n2", "union_whole_n2"],
@@ -377,7 +383,7 @@ THOROUGH_EXTRA = {
             "rmchildren_(len|shape)_n3", "step_iter_n4"],
     "C11": ["remove_shape_n3", "view_at_(ro|mut)_n3", "view_nav_(ro|mut)_n3", "view_find[03]_(ro|mut)_n3", "view_find[03]_mut_n4", "view_access[13]_n3"],
     "C12": ["remove_shape_n3", "view_find[0-3]_(ro|mut)_n3"],
-    "C13": ["view_access[13]_n3", "(union|diff|covdiff)_init_mut_n2", "inter_init_mut_n3", "remove_shape_n3", "obs_get_mut_n3", "obs_lpm_mut_n3", "whole_iter_mut_n4", "step_iter_mut_n3", "inter_step_mut_n2", "children_mut_n3", "diff_step_mut_n2", "covdiff_step_mut_n2",
+    "C13": ["proj1_n2", "view_access[13]_n3", "(union|diff|covdiff)_init_mut_n2", "inter_init_mut_n3", "remove_shape_n3", "obs_get_mut_n3", "obs_lpm_mut_n3", "whole_iter_mut_n4", "step_iter_mut_n3", "inter_step_mut_n2", "children_mut_n3", "diff_step_mut_n2", "covdiff_step_mut_n2",
             "inter_step_mut_n3", "union_step[0-4]_mut_n2", "split_interleave_n3"],
     "C14": ["inter_step_mut_n2", "inter_init_mut_n2", "view_nav_mut_n3", "view_find[0-3]_mut_n3", "view_find[13]_mut_n4", "view_nav_ro_n[34]", "step_iter_mut_n3", "obs_get_mut_n3", "whole_iter_mut_n4",
             "split_interleave_n[34]", "covdiff_step_mut_n2", "diff_step_mut_n2", "obs_lpm_mut_n3"],
@@ -452,7 +458,7 @@ if __name__ == "__main__":
 CLAIM_TEXT = {
     "C01": ("one-step simulation of the abstract map: from every well-formed arena of at most N slots (symbolic contents and topology) each mutator (insert, every Entry path, remove, remove_keep_tree, remove_children, retain, clear, collect of two pairs) returns the abstract return value and leaves the abstract post-map (probe prefix), and each exact-match observer returns the abstract answer", "§4 C01"),
     "C02": ("get_lpm / get_lpm_prefix / get_lpm_mut / set get_lpm equal the longest covering entry of the abstract map for every well-formed arena of at most N slots (value-less nodes anywhere) and every query", "§4 C02"),
-    "C03": ("whole traversals from the real constructors (iter, iter_mut, into_iter, keys/values, clone) at N=3 with a probe prefix, plus Init/Step obligations on injected stacks: each entry once, ascending, fused", "§4 C03"),
+    "C03": ("whole traversals from the real constructors (iter, iter_mut, into_iter) at N=3 with a probe prefix, plus Init/Step obligations on injected stacks at N=4: each entry once, ascending, fused; the projection wrappers values_mut / into_keys / into_values item by item against iter() at N=2 (owned ones with an arbitrary entry counter); keys / values / &map / Keys::clone and the set iterators likewise in the thorough tier", "§4 C03"),
     "C04": ("len()/is_empty() delta of every mutator equals the abstract delta from every well-formed, count-consistent state of at most N slots; includes Entry handles, clone, collect and mutable views", "§4 C04"),
     "C05": ("union / union_mut: Init obligation on the real constructors for every pair of view locations (stack invariant, nothing lost; 2+2 and 3+3 slots), contract of the pair classifier next_indices (3+3, 4+4), and the first item of a 1+1 traversal; the one-sided descent helpers and the Step of Union::next exceed CBMC's memory and are NOT decided (DESIGN.md §12)", "§4 C05"),
     "C06": ("intersection / intersection_mut: Init on the real constructors for every pair of view locations (3+3 slots), helper contracts (no common entry pruned; 4+4), and the Step of Intersection::next from every stack satisfying the stack invariant (2+2 slots; IntersectionMut in the thorough tier)", "§4 C06"),
@@ -468,7 +474,7 @@ CLAIM_TEXT = {
     "C16": ("every mutator preserves the slot partition (reachable xor free, free list duplicate-free) and grows the arena only when the free list is empty, from every partitioned arena of at most N slots", "§4 C16"),
     "C17": ("the Prefix trait methods of all 14 shipped types against the reference algebra for every representation, every length 0..=width and every bit index 0..=255 (finite domain decided completely, no loop in the code under test)", "§4 C17"),
     "C18": ("stored representation component of the abstract map: observers, iterators, views and set-operation items return stored bytes, inserting calls overwrite them with the argument's bytes, other calls leave them", "§4 C18"),
-    "C19": ("== / != of two maps and of two sets against the sequence oracle at 1+1 slots (2+2 is a thorough, optional instance that does not finish here), clone() equality and independence (N=3), rebuild from the own entries in another order (thorough); the serde wire formats are not decidable here (DESIGN.md §12)", "§4 C19"),
+    "C19": ("== / != of two maps and of two sets against the sequence oracle at 1+1 slots (2+2 is a thorough, optional instance that does not finish here), clone() equality and independence (N=3), clone_from() onto a destination that already holds entries (N=2+2: exact copy, nothing of the old contents survives, source untouched), rebuild from the own entries in another order (thorough); the serde wire formats are not decidable here (DESIGN.md §12)", "§4 C19"),
     "C20": ("Kani's panic / unwrap / unreachable / index / overflow / unwinding checks over the harnesses of all other properties (every public entry point from every invariant state inside the bound), handle-call sequences, and callback-time observations modelling a panicking user callback", "§4 C20"),
 }
 NOT_YET = "harnesses for this property are not built yet in this revision"
